@@ -3,7 +3,7 @@ use typst_syntax::{ast::*, SyntaxKind};
 use super::{
     layout::list::{ListStyle, ListStylist},
     style::FoldStyle,
-    util::{has_comment_children, is_only_one_and},
+    util::{ends_with_linebreak, has_comment_children, is_only_one_and},
     ArenaDoc, Context, Mode, PrettyPrinter,
 };
 
@@ -103,10 +103,22 @@ impl<'a> PrettyPrinter<'a> {
                 .last()
                 .is_some_and(|child| child.kind() == SyntaxKind::Comma);
 
+        let last_item = (array.to_untyped().children())
+            .filter(|child| child.is::<ArrayItem>())
+            .last();
+
         ListStylist::new(self)
             .with_fold_style(self.get_fold_style(ctx, array))
-            .process_list(ctx, array.to_untyped(), |ctx, node| {
-                self.convert_array_item(ctx, node)
+            .process_list(ctx, array.to_untyped(), |ctx, node: ArrayItem<'a>| {
+                let item = self.convert_array_item(ctx, node);
+                // In a row of math arguments an item may end in a line-break backslash,
+                // which must not touch the separator that follows it.
+                let is_last = last_item.is_some_and(|last| std::ptr::eq(last, node.to_untyped()));
+                if ends_with_linebreak(node.to_untyped()) && (!is_last || ends_with_comma) {
+                    item + " "
+                } else {
+                    item
+                }
             })
             .print_doc(ListStyle {
                 add_trailing_sep_single: is_explicit,
